@@ -557,6 +557,19 @@ def arc_expr(c):
 HEADER = ("From Coq Require Import QArith List ZArith.\nFrom WSI Require Import Vqip Enc Pow Tank Arc QTank Run.\n"
           "Import ListNotations.\nOpen Scope Q_scope.\n")
 
+def add_imports(*names):
+    """make the case files import these model modules too (inserted before Run, once, whatever the order in which the
+    family modules are loaded)"""
+    global HEADER
+    lines = HEADER.split("\n")
+    mods = lines[1][len("From WSI Require Import "):-1].split()
+    for n in names:
+        if n not in mods:
+            mods.insert(len(mods) - 1, n)
+    lines[1] = "From WSI Require Import " + " ".join(mods) + "."
+    HEADER = "\n".join(lines)
+
+
 FAMILIES = {
     "tank": (gen_tank_case, run_tank_impl, tank_expr),
     "qtank": (gen_qtank_case, run_qtank_impl, qtank_expr),
